@@ -100,9 +100,9 @@
   Proved: (a)–(i).  Not proved, precisely:
   (1) `C10_full` itself.  Of the audit, the clauses of `auditResponse` *after* the response is decoded
       remain, all of which need first
-      (1a) the request-side link: `viewRequest` (the audit's own walk to the TSIG RR: `findTsig`,
-           `specDecodeName`, `parseRdata`, `digestInput` over the request prefix) yields the key name,
-           RDATA fields and prefix of the model's `t` / `mw` (`hwc_tsig` keeps them existential);
+      (1a) (closed: `C10_request_view`, (j)) the request-side link: `viewRequest` (the audit's own walk
+           to the TSIG RR: `findTsig`, `specDecodeName`, `labelsOf`, `parseRdata`, the request prefix)
+           yields the key name, RDATA fields and prefix of the model's `t` / `mw` of the same `TsigRun`;
       and then, per clause:
       (1b) `fits` (uncompressed size ≤ limit) ⇔ the model's `TsigFits` on the scan state — selects
            between the "nofit-*" tags (decoded facts: `C10_decoded_tsig_does_not_fit`) and the rest;
@@ -138,6 +138,7 @@ import QV.Proofs.ServerSignedDecode
 import QV.Proofs.ServerSignedOwner
 import QV.Proofs.ServerAnswerDecode
 import QV.Proofs.ServerSignedNoFit
+import QV.Proofs.RequestFields
 import QV.Proofs.ServerSignedTable
 
 namespace QV.C10
@@ -1079,6 +1080,45 @@ theorem C10_audit_reaches_decoding (cfg : Cfg) (hcfg : ServerSafety.CfgWF cfg) (
   obtain ⟨b, d, hb, hd⟩ := ServerContent.signed_response_decodes cfg hcfg tr now 65535 req (minBuf_le tr _ hp16)
     hpay hp16 hreq (by rw [← a1]; exact hr) (a2.mp hv) hnp
   exact ⟨b, d, by rw [hb]; rfl, hd⟩
+
+/-! ## (j) the request-side link (1a) -/
+
+open QV.ServerScan in
+/-- **C10 (1a): the audit's view of the request is the model's.**  On a request whose scan reaches a
+    TSIG record: the record `d` that the audit's `findTsig` walks to is the one the model's scan hands
+    to `ReadTsigRr::try_from` (`t`); the model's message-without-TSIG `mw` is the request up to `d`,
+    i.e. the audit's `prefixOctets`; the decoded owner is the key name (`kn`: `t.keyName` is its wire
+    form in lower case, the audit's `keyName` its labels); the RDATA is `alg.wire ++ rest` with `alg`
+    the algorithm name (`t.algorithm` its wire form in lower case, the audit's `fields.algName` its
+    labels) and `Spec.Tsig.parseRdata` reads from `rest` exactly what `t`'s accessors return
+    (`FieldsAgree`: time signed, fudge, MAC, original ID, error, other data); and `viewRequest` returns
+    this view with `specTsigOutcome` evaluated on it (proof: `Proofs/RequestView`, `Proofs/RequestFields`;
+    the scan's post-condition `ArPost` now carries the record, `TsigView`). -/
+theorem C10_request_view (cfg : Server.Cfg) (tr : Server.Transport) (now bufLen : Nat) (req : Bytes)
+    (hbuf : minBuf tr cfg.payload ≤ bufLen) (hpay : 512 ≤ cfg.payload) (hreq : req.size ≤ Rdata.USIZE_MAX)
+    (hr : (Spec.Server.specScanWith (catKind cfg) cfg.payload req).respond = true)
+    (hv : (Spec.Server.specScanWith (catKind cfg) cfg.payload req).verdict = .tsigReached)
+    (hm : Spec.ServerTsig.Hm) (keys : List Spec.ServerTsig.KeyCfg) :
+    ∃ (t : Tsig.ReadTsigRr) (mw : Bytes) (r' : Reader.Reader) (question : Option (WName × Nat × Nat))
+      (d : Spec.Server.Delim) (owner : List UInt8) (nl fl : Nat) (kn alg : WName) (rest : List UInt8),
+      ServerContent.TsigRun cfg tr now bufLen req t mw r' question ∧
+      Spec.ServerTsig.findTsig req = some d ∧ d.ty = 250 ∧ d.cls = 255 ∧ d.rawTtl = 0 ∧
+      Spec.specDecodeName req d.pos = some (owner, nl, fl) ∧ kn.WF ∧ kn.wire = owner ∧
+      alg.WF ∧ tsigRd req d = alg.wire ++ rest ∧ 10 ≤ rest.length ∧
+      mw = req.extract 0 d.pos ∧ r'.cursor = d.next ∧
+      t = ⟨Tsig.lowerName owner, Tsig.lowerName alg.wire,
+        (Tsig.rd16 (alg.wire ++ rest) (alg.wire.length + 8)).toNat, alg.wire ++ rest⟩ ∧
+      FieldsAgree t (fieldsOf alg.labels rest) ∧
+      Spec.ServerTsig.viewRequest hm keys req now =
+        some ⟨kn.labels, fieldsOf alg.labels rest, mw.toList,
+          Spec.ServerTsig.specTsigOutcome keys kn.labels (fieldsOf alg.labels rest)
+            (fun k => hm k.sha256 k.secret (Spec.Tsig.digestInput .request mw.toList
+              (fieldsOf alg.labels rest).originalId
+              { keyName := kn.labels, algName := alg.labels, timeSigned := (fieldsOf alg.labels rest).timeSigned,
+                fudge := (fieldsOf alg.labels rest).fudge, error := (fieldsOf alg.labels rest).error,
+                other := (fieldsOf alg.labels rest).other } [])) now,
+          Spec.ServerTsig.findKey keys kn.labels⟩ :=
+  request_view cfg tr now bufLen req hbuf hpay hreq hr hv hm keys
 
 /-! ## non-vacuity: concrete instances of the hypotheses used above -/
 
